@@ -2,7 +2,8 @@
 
 Three specifications under spec/grid (SymLattice.tla holds the shared lattice operators):
   HexSymmetry    third-core equivalents / first-third membership / symmetry lines / rotateIndex / getIndexOfRotatedCell
-  CartSymmetry   quarter-core equivalents and domain, with and without a centre cell, periodic and reflective
+  CartSymmetry   quarter-core equivalents and domain, with and without a centre cell, periodic and reflective, square and
+                 rectangular cells, fresh grids and grids after changePitch (real coordinates of every reported equivalent)
   BlockRotation  HexBlock.rotate / HexAssembly.rotate: children, pins, corner/edge data, displacement, orientation
 
 For each: exhaustive TLC run (laws proved in-spec over the small domain), then spec -> code: every case / edge TLC
@@ -10,6 +11,7 @@ printed is executed once on the real functions / real objects and compared with 
 GEOMETRIC definitions; and code -> spec: seeded random histories of the real code validated by TLC.
 The adapters only build, apply, project and compare (coordinates are projected to lattice units, see UNIT_TOL).
 """
+import concurrent.futures
 import copy
 import json
 import math
@@ -160,8 +162,7 @@ def run_hex(rep, thorough, seed, mc=True):
         verdict(rep, res, "HexSymmetry")
         need_actions(res, ["RotateB"])
     eres = tlc.run("HexSymmetry_mc", "HexSymmetry_emit%s.cfg" % sfx, MODDIR, workers=1, coverage=False, timeout=2400)
-    if mc:
-        rep.add_tlc("hex-cases:HexSymmetry_emit%s.cfg" % sfx, eres)
+    rep.add_tlc("hex-cases:HexSymmetry_emit%s.cfg" % sfx, eres)
     states = [p for p in eres.prints if isinstance(p, dict) and "st" in p]
     edges = [p for p in eres.prints if isinstance(p, dict) and "act" in p]
     if not states or not edges:
@@ -311,8 +312,7 @@ def run_cart(rep, thorough, mc=True):
         verdict(rep, res, "CartSymmetry")
         need_actions(res, ["ApplyB", "ChangePitchB"])
     eres = tlc.run("CartSymmetry_mc", "CartSymmetry_emit%s.cfg" % sfx, MODDIR, workers=1, coverage=False, timeout=1200)
-    if mc:
-        rep.add_tlc("cart-cases:CartSymmetry_emit%s.cfg" % sfx, eres)
+    rep.add_tlc("cart-cases:CartSymmetry_emit%s.cfg" % sfx, eres)
     states = [p for p in eres.prints if isinstance(p, dict) and "st" in p]
     edges = [p for p in eres.prints if isinstance(p, dict) and "act" in p]
     if not states or not edges:
@@ -694,8 +694,7 @@ def run_blocks(rep, thorough, mc=True):
     graphs = []
     for cfg in ("BlockRotation_emit%s.cfg" % sfx, "BlockRotation_emit_asm%s.cfg" % sfx):
         eres = tlc.run("BlockRotation_mc", cfg, MODDIR, workers=1, coverage=False, timeout=2400)
-        if mc:
-            rep.add_tlc("block-edges:" + cfg, eres)
+        rep.add_tlc("block-edges:" + cfg, eres)
         g = block_graph(eres)
         if not g.edges:
             raise tlc.MachineryError("BlockRotation emitted no edges (%s)" % cfg)
@@ -713,7 +712,7 @@ def check_blocks(rep, graphs, thorough, seed, ad=None):
             "every edge (s,a,t) of TLC's graph is executed as path(s);a on freshly copied real HexBlocks inside a real "
             "HexAssembly and the complete projection (child locators, pins, pin coordinates, all corner/edge parameters, "
             "displacement, orientation, error) compared; non-trivial = the abstract state changes",
-            None if thorough else 3500, rng)
+            None if thorough else 2500, rng)
         total += n
         e = g.edges[len(g.edges) // 2]
         rep.sample({"kind": "block-edge", "config": cfg, "path": [s["act"] for s in g.path[e["_fk"]]], "act": e["act"],
@@ -795,20 +794,38 @@ def trace_verdicts(rep, bad, what):
 
 def run(rep, tier, seed):
     thorough = tier == "thorough"
-    for m in ("HexSymmetry_mc", "CartSymmetry_mc", "BlockRotation_mc", "HexSymmetry_trace", "BlockRotation_trace"):
-        tlc.sany(m, MODDIR)
+    if thorough:   # quick: TLC parses the same modules anyway (a parse error is a MachineryError there too); saves five JVM starts
+        for m in ("HexSymmetry_mc", "CartSymmetry_mc", "BlockRotation_mc", "HexSymmetry_trace", "BlockRotation_trace"):
+            tlc.sany(m, MODDIR)
 
-    # 1+2. hexagonal grids
-    hdata = run_hex(rep, thorough, seed)
-    check_hex(rep, hdata)
-    # Cartesian grids
-    cdata = run_cart(rep, thorough)
-    check_cart(rep, cdata)
-    # blocks / assemblies
-    graphs = run_blocks(rep, thorough)
-    ad = BlockAdapter()
-    check_blocks(rep, graphs, thorough, seed, ad)
-    rep.exhaustive = thorough
+    # 1. the three exhaustive TLC runs (16 workers each, one after the other) proceed in a helper thread while the main
+    #    thread does 2. (single-worker emission runs + the real code); their verdicts are collected below
+    sfx = "_thorough" if thorough else ""
+    jobs = [("hex-exhaustive", "HexSymmetry", ["RotateB"]), ("cart-exhaustive", "CartSymmetry", ["ApplyB", "ChangePitchB"]),
+            ("block-exhaustive", "BlockRotation", ["RotateBlockB", "RotateAssemblyB", "RotateAssemblyOffGridB"])]
+
+    def exhaustive():
+        return [(lab, mod, acts, tlc.run(mod + "_mc", "%s_mc%s.cfg" % (mod, sfx), MODDIR, want_prints=False, timeout=2400))
+                for lab, mod, acts in jobs]
+    pool = concurrent.futures.ThreadPoolExecutor(max_workers=1)
+    fut = pool.submit(exhaustive)
+    try:
+        # 2. spec -> code
+        hdata = run_hex(rep, thorough, seed, mc=False)
+        check_hex(rep, hdata)
+        cdata = run_cart(rep, thorough, mc=False)
+        check_cart(rep, cdata)
+        graphs = run_blocks(rep, thorough, mc=False)
+        ad = BlockAdapter()
+        check_blocks(rep, graphs, thorough, seed, ad)
+        rep.exhaustive = thorough
+    finally:
+        results = fut.result()      # re-raises a MachineryError of the helper thread
+        pool.shutdown()
+    for lab, mod, acts, res in results:
+        rep.add_tlc("%s:%s_mc%s.cfg" % (lab, mod, sfx), res)
+        verdict(rep, res, mod)
+        need_actions(res, acts)
 
     # 3. code -> spec
     ht = hex_traces(400 if thorough else 100, 30, seed)
@@ -818,7 +835,7 @@ def run(rep, tier, seed):
                    "seeded random walks of rotateIndex (k up to +-100000) on real grids; every event must be a Rotate(k) step "
                    "of HexSymmetry landing on the logged cell and lattice coordinates")
     trace_verdicts(rep, bad, "HexSymmetry")
-    bt = block_traces(ad, 300 if thorough else 80, 16, seed)
+    bt = block_traces(ad, 300 if thorough else 50, 16, seed)
     bad, stats = tracecheck.validate("BlockRotation_trace", "BlockRotation_trace.cfg", MODDIR, bt, timeout=2400)
     rep.add_tlc("trace-validation:assembly-rotation-histories", stats["tlc"])
     rep.add_traces("assembly-rotation-histories", len(bt), sum(len(t["ev"]) for t in bt),
@@ -832,8 +849,10 @@ def run(rep, tier, seed):
         "integer within %g (relative), anything else is reported as it is" % UNIT_TOL,
         "third-core equivalents are also required in the order <<R120 c, R240 c>> (docstring; ThirdCoreHexToFullCoreChanger "
         "rotates the copy at equivalents[n] by (n+1)*120 degrees); Cartesian equivalents are compared as sets without duplicates",
-        "Cartesian grids are built as gridBlueprint builds them: isOffset = not isThroughCenterAssembly; 90-degree images are "
-        "compared with a square pitch, reflections also with a rectangular pitch",
+        "Cartesian grids are built as gridBlueprint builds them: isOffset = not isThroughCenterAssembly; cells are w x h length "
+        "units of %g cm: periodic grids only with square cells (1x1, 3x3; a 90-degree rotation is a lattice symmetry only then, "
+        "stated as an ASSUME of CartSymmetry), reflective / full grids with 1x1, 2x1 and 1x3 cells; every query is made on the "
+        "freshly built grid and on grids that reached the pitch through one or two changePitch calls" % CART_UNIT,
         "block rotations are requested as k*math.pi/3 (armi's _rotationNumberToRadians), refused ones as h*math.pi/6 with h odd",
         "corner/edge data are numbered counter-clockwise; orientation is compared modulo 360 degrees",
         "pin-indexed parameters (linPowByPin etc.) stay attached to pin m and are outside the statement",
@@ -858,6 +877,9 @@ def replay(payload):
 
             def violation(self, key, what, payload=None):
                 self.violations.append((key, what))
+
+            def add_tlc(self, *a, **k):
+                pass
         r = R()
         col = Collector(r)
         kind = payload.get("kind")
